@@ -510,7 +510,7 @@ pub fn uniq<F: Family>(cx: &mut Cx<'_, F>, op: &Op) -> Outcome {
                             // the value passed in is destroyed by the unwinding
                             if F::P::ZST {
                                 exp.zst_drops += 1;
-                            } else {
+                            } else if F::P::TRACKED {
                                 exp.drops.push(id);
                             }
                             exp.no_rmw = true;
@@ -742,7 +742,9 @@ pub fn uniq<F: Family>(cx: &mut Cx<'_, F>, op: &Op) -> Outcome {
                         cx.undo_pre_release(ai);
                         cx.verdict(&what, ai, true);
                         if old_val != 0 {
-                            exp.drops.push(old_val);
+                            if F::P::TRACKED {
+                                exp.drops.push(old_val);
+                            }
                         } else if F::P::ZST {
                             exp.zst_drops += 1;
                         }
